@@ -6,9 +6,13 @@ CONSTANTS
  MaxTime = 4
  MaxCalls = 5
  WriteInLock = TRUE
+ MaxFails = 1
+ ReleaseOnError = TRUE
  Recheck = TRUE
 INVARIANT FetchOnce
 INVARIANT ReturnsFresh
 INVARIANT MutualExclusion
 INVARIANT LockOwner
+INVARIANT NoLeak
+INVARIANT CacheFromFetch
 CHECK_DEADLOCK FALSE
